@@ -12,6 +12,9 @@ CLAIMED = {
  "C04": (TECH_TRACE, "Cache.tla states 'directory = indexed entries at quiescence' and 'no indexed entry lacks its file' as invariants over all interleavings incl. failing uploads; recorded executions (file create/complete/remove events, remover order, per-request ownership of temporary files, file names computed by the specification's naming function, directory listings at quiescence) are validated against the specification with TLC."),
  "C05": (TECH_TRACE, "The specification evicts from the back of the recency list only inside Reserve/Add and only while the incoming item does not fit; an independent logical clock shows in the model that the list order is the last-use order. Recorded executions must evict exactly the victims, in exactly the order, the specification computes; the recency order of the real index is compared with the specification's after every operation, and the keys an operation hit or stored must be the most recently used ones."),
  "C07": (TECH_TRACE, "All interleavings of 2 goroutines x 2 requests / 3 x 1 over shared keys incl. an initially unreadable file are model-checked for accounting, map/list consistency, directory and whole-value reads; free-running concurrent executions of the real code (8-16 goroutines, damaged and lost files, overwrites, lost-file read storms) are validated step by step against the specification, reads are compared with the uploaded values."),
+ "C06": (TECH_CASE, "ActionCache.tla enumerates every ActionResult shape of up to 3 references (7 reference categories x 6 blob states) and checks that the traversal of GetValidatedActionResult answers hit exactly when every non-inline reference is satisfied; FindMissing.tla checks the fail-fast dependency check for all worker interleavings (it refuted the pre-fix code). Every shape is materialised with real protobufs and queried through gRPC GetActionResult, HTTP GET and HEAD, with and without a backend; after a hit the recency order of the index is inspected; the race schedule found by TLC is replayed through a verif gate."),
+ "C10": (TECH_CASE, "FindMissing.tla model-checks the batching / worker hand-off / compaction algorithm for all request lists of length <= 4 over 6 digest classes and all interleavings of 2 backend workers (safety: exactly the absent digests, order and duplicates kept; liveness: terminates); every abstract list is scaled to lengths around the real batch size of 20 and sent to the gRPC endpoint with and without a (slow) backend while unrelated uploads run."),
+ "C11": (TECH_CASE, "ActionCache.tla enumerates all histories of up to 2 uploads to one action key over 4 encodings (gRPC, HTTP proto / JSON / zstd) x 23 message classes (each invalid kind separately) and checks that what is stored always validates and the latest accepted upload wins; every history is executed and the stored message is read back through gRPC, HTTP proto and HTTP JSON and compared with proto.Equal after undoing the documented server-side changes."),
  "C17": (TECH_TRACE, "Reserve's admission test (accounted + deletion backlog + item <= hard limit, refusal changes nothing) is part of Lru.tla; recorded executions with a hard limit must take the branch the specification takes for the backlog value they actually read, which must lie within the bounds implied by the logged remover events."),
  "C18": (TECH_CASE, "Ingress.tla's limit dimension (max_blob_size = size-1 / size / size+1) is enumerated over all write paths; every case is executed on real front ends configured with that limit: over-limit uploads must be refused with a client error and leave nothing behind, uploads of exactly the limit must be accepted."),
 }
